@@ -299,6 +299,12 @@ fn main() {
             }
         }
         let mrx_t = mrx.clone();
+        // MAYV_HOLD2=1: the target holds a lock of its own (nobody else touches it) across the call it is cancelled in:
+        // the guard is dropped by the cancellation unwind and must not poison, whichever code raised the cancel panic
+        let hold2 = envn("MAYV_HOLD2", 0) != 0;
+        let held = Arc::new(may::sync::Mutex::new(0u32));
+        let heldw = Arc::new(may::sync::RwLock::new(0u32));
+        let (held2, heldw2) = (held.clone(), heldw.clone());
         let target = unsafe {
             may::coroutine::Builder::new().name("target".into()).spawn(move || {
                 let _a = Owned::new(1);
@@ -310,6 +316,8 @@ fn main() {
                 reached2.store(1, Ordering::SeqCst);
                 loop {
                     let _c = Owned::new(4);
+                    let _h1 = if hold2 { Some(held2.lock().unwrap()) } else { None };
+                    let _h2 = if hold2 { Some(heldw2.write().unwrap()) } else { None };
                     match prim {
                         "mutex" => {
                             let g = mx2.lock().unwrap();
@@ -557,6 +565,15 @@ fn main() {
         }
         if mx.is_poisoned() || rw.is_poisoned() {
             ctx.fail("a lock was poisoned by the cancellation".into());
+        }
+        if held.is_poisoned() || heldw.is_poisoned() {
+            ctx.fail("a lock the cancelled coroutine held across the call it was cancelled in was poisoned by the cancellation".into());
+        }
+        if hold2
+            && (matches!(held.try_lock(), Err(std::sync::TryLockError::WouldBlock))
+                || matches!(heldw.try_write(), Err(std::sync::TryLockError::WouldBlock)))
+        {
+            ctx.fail("a lock the cancelled coroutine held across the call it was cancelled in is still held after the join".into());
         }
         if mx.try_lock().is_err() {
             ctx.fail("mutex still held after the cancelled coroutine was joined".into());
